@@ -8,7 +8,7 @@ claim('C12',
       'engine are trusted, every model is replayed natively.',
       'symbolic execution of the real code with z3 (minisym), validity queries per path', 'DESIGN.md §4 C12')
 _todo = ('check not built yet in this round; see DESIGN.md §8 build order')
-for _p in ['C03', 'C05', 'C06', 'C07', 'C11', 'C14', 'C15', 'C16', 'C17', 'C20']:
+for _p in ['C03', 'C05', 'C06', 'C11', 'C14', 'C15', 'C16', 'C17', 'C20']:
     na(_p, _todo)
 na('C19', 'PYTHONHASHSEED / process effects live in CPython C code and start-up, not reachable by symbolic execution of '
           'chython; modelling set order as arbitrary would over-approximate and raise false alarms (DESIGN.md C19)')
@@ -97,3 +97,15 @@ claim('C04',
       're-implements the first-matching-rule semantics from the docstring; RDKit comparison dropped (legitimate toolkit '
       'differences).',
       'symbolic execution with solver-enumerated finite domains (minisym) against two independent oracles', 'DESIGN.md §4 C04')
+claim('C07',
+      'The stack matcher and its query compiler run on graphs whose atom and bond labels are unconstrained solver integers '
+      '(the code only compares them with ==, so one path covers every label assignment with the same equality pattern) and '
+      'must return exactly the embeddings of a brute-force enumerator evaluated on the same symbolic labels; the public '
+      'MoleculeContainer.get_mapping with multi-component patterns and targets, symbolic scope subsets and both settings of '
+      'the automorphism filter, and <=, <, is_substructure, is_equal agree with that set; lazy_product equals the cartesian '
+      'product for symbolic iterator lengths; the automorphism generator returns exactly the (component-preserving) '
+      'automorphisms.',
+      'Bounded: pattern <= 3 atoms / target <= 4-5 atoms (quick), 4 / 5 (thorough); shapes and atom numbers are concrete; '
+      'exchanges of whole identical components by get_automorphism_mapping are not claimed.',
+      'symbolic execution of the real matcher with z3-decided label equalities (minisym), brute-force oracle on the same '
+      'symbolic labels', 'DESIGN.md §4 C07')
